@@ -8,7 +8,37 @@ with the generation it was given by `NewMessage`.  Each object owns a one-place 
 ("free only what nobody references any more", the comment on `FreeMessage`) matters, and the model keeps
 both the disciplined and the undisciplined `free`.
 
-One topic is modelled; `high` and `low` are its two bounded channels.
+One topic is modelled; `high` and `low` are its two bounded channels.  The *requester* is one client
+(`req`); it may subscribe a private topic of its own (`subReq`), which is what makes its `Close` do
+anything at all (`client.Close` returns at once while `client.topic == nil`).
+
+Nondeterminism of Go's `select` is explicit: where two cases of a `select` can be ready together the
+label carries the branch (`viaDone`), and both branches are steps of the model:
+ * `wait o viaDone` — `WaitTimeout`: `case <-msg.chReply` (false) | `case <-sub.done`/`case <-client.done`
+   (true).  After a close with a buffered reply both are enabled; the `done` branch leaves the reply in
+   the buffer.
+ * `timeout o` — the timer case of a `WaitTimeout(d > 0)`; it may fire whatever else is ready, so it is
+   always enabled.  `Wait` (= `WaitTimeout(-1)`) has a nil timer channel: it has no such branch, hence
+   its `panic(ErrQueueTimeout)` is dead code (the same holds for `Send` = `SendTimeout(-1)`); "Wait blocks"
+   is "no `wait` branch is enabled".
+ * `unblock t sync viaDone` — a sender blocked in `select { case sub.high <- msg; case <-sub.done }`:
+   `viaDone` needs the topic closed; the other branch needs space in the channel the sender holds.
+   `closeTopic`/`Close` replace the `chanSub` in the map but the *old* channels live on for whoever
+   holds them: the model keeps `high`/`low` after a close, so a blocked sender may still get into the
+   orphaned channel (if the pump drained it) and the pump may still forward from it (`recv`).
+   Only *new* sends see the closed placeholder.
+What is abstracted: `high`/`low` stand for the Go channel plus the subscriber client's `recv` buffer
+(cap 5) plus the message in the pump goroutine's hand; the pump's exit after `done` is not modelled
+(`recv` stays enabled: an over-approximation); `client.Close`'s drain loop, which answers the requests
+still buffered in `client.recv` with an `ErrChannelClosed` reply, is not modelled (for the requester it is
+indistinguishable from the `done` branch: `Wait` returns `closed` either way); the `&Message{}` sentinel
+pushed by a close is not a request and is not modelled.
+
+`client.Close` of the requester is split at its two racy points (`closeEnter`: the `isClosed || topic == nil`
+check; `closeDone`: `closeTopic(own)` + `close(client.done)`, which PANICS when `done` is closed already;
+`closeFinish`: `wg.Wait(); isClosed = 1; close(recv)`), so two overlapping calls are schedules of the model.
+Not modelled: `Sub` racing a `Close` of the same client (a pump started between `close(done)` and
+`isCloseing = 1` could send on the closed `recv`) and `CloseQueue` (second call blocks on `interrupt`).
 -/
 namespace C36
 
@@ -46,20 +76,29 @@ structure State where
   capHigh : Nat := 64
   capLow : Nat := 40960
   topicClosed : Bool := false    -- closeTopic / queue.Close replaced the sub and closed `done`
-  clientClosed : Bool := false   -- requester's client.Close finished
   queueClosed : Bool := false
+  reqSub : Bool := false         -- the requester's client subscribed a private topic (client.topic != nil)
+  closersA : Nat := 0            -- Close calls of the requester's client past the entry check, before close(done)
+  closersB : Nat := 0            -- ... past close(done), before isClosed = 1
+  clientDone : Bool := false     -- requester's client.done is closed
+  clientClosed : Bool := false   -- requester's client.isClosed = 1
+  closeOverlap : Bool := false   -- ghost: some Close call of the requester's client began while another was in flight
 
 inductive Label where
   | new (o : Obj)                        -- NewMessage handed out object o
   | send (o : Obj) (sync : Bool)         -- Send(msg, waitReply = sync): high channel if sync, else low
-  | unblock (t : Tag) (sync : Bool)      -- a blocked sender proceeds: channel has space, or `done` was closed
+  | unblock (t : Tag) (sync viaDone : Bool)  -- a blocked sender proceeds: `done` was closed (viaDone), or the channel has space
   | recv (fromHigh : Bool)               -- the subscriber goroutine forwards one message
   | reply (t : Tag)                      -- a responder holding t writes its answer into t.obj's buffer
-  | wait (o : Obj)                       -- requester's Wait finds the buffer non-empty
-  | timeout (o : Obj)                    -- WaitTimeout expires with an empty buffer
+  | wait (o : Obj) (viaDone : Bool)      -- requester's Wait/WaitTimeout: takes the reply (false) | sees a closed `done` (true)
+  | timeout (o : Obj)                    -- the timer case of a WaitTimeout(d > 0)
   | free (o : Obj) (disciplined : Bool)  -- FreeMessage
   | closeTopic
   | closeQueue
+  | subReq                               -- requester's client.Sub(private topic)
+  | closeEnter                           -- requester's client.Close: entry check
+  | closeDone                            -- ... closeTopic(own topic); close(client.done)
+  | closeFinish                          -- ... wg.Wait(); isClosed = 1; close(recv)
   deriving Repr
 
 inductive Out where
@@ -67,6 +106,7 @@ inductive Out where
   | tag (t : Tag)          -- recv / wait: what was obtained
   | err (e : String)       -- closed | full | timeout
   | blocked                -- the call does not return yet
+  | panic                  -- the goroutine panics (close of closed channel)
   deriving DecidableEq, Repr
 
 def upd (f : Obj → ObjSt) (o : Obj) (v : ObjSt) : Obj → ObjSt := fun x => if x = o then v else f x
@@ -100,28 +140,31 @@ def step (s : State) : Label → Option (State × Out)
           else
             some ({ s with blockedLow := s.blockedLow ++ [t], objs := upd s.objs o { st with phase := .sending } }, .blocked)
       | _ => none
-  | .unblock t sync =>
+  | .unblock t sync viaDone =>
     let st := s.objs t.obj
     if sync then
       if s.blockedHigh.contains t then
-        if s.topicClosed then     -- `case <-sub.done: return ErrChannelClosed`
-          some ({ s with blockedHigh := removeFirst t s.blockedHigh, objs := upd s.objs t.obj { st with phase := .failed } }, .err "closed")
-        else if s.high.length < s.capHigh then
+        if viaDone then
+          if s.topicClosed then     -- `case <-sub.done: return ErrChannelClosed`
+            some ({ s with blockedHigh := removeFirst t s.blockedHigh, objs := upd s.objs t.obj { st with phase := .failed } }, .err "closed")
+          else none
+        else if s.high.length < s.capHigh then   -- `case sub.high <- msg: return nil` (also into the orphaned channel)
           some ({ s with blockedHigh := removeFirst t s.blockedHigh, high := s.high ++ [t],
                          objs := upd s.objs t.obj { st with phase := .queued } }, .ok)
         else none
       else none
     else
       if s.blockedLow.contains t then
-        if s.topicClosed then     -- sendLowTimeout(-1): `case <-sub.done: return ErrChannelClosed`
-          some ({ s with blockedLow := removeFirst t s.blockedLow, objs := upd s.objs t.obj { st with phase := .failed } }, .err "closed")
+        if viaDone then
+          if s.topicClosed then     -- sendLowTimeout(-1): `case <-sub.done: return ErrChannelClosed`
+            some ({ s with blockedLow := removeFirst t s.blockedLow, objs := upd s.objs t.obj { st with phase := .failed } }, .err "closed")
+          else none
         else if s.low.length < s.capLow then
           some ({ s with blockedLow := removeFirst t s.blockedLow, low := s.low ++ [t],
                          objs := upd s.objs t.obj { st with phase := .queued } }, .ok)
         else none
       else none
   | .recv fromHigh =>
-    if s.topicClosed then none else
     match (if fromHigh then s.high else s.low) with
     | [] => none
     | t :: rest =>
@@ -138,27 +181,42 @@ def step (s : State) : Label → Option (State × Out)
         let ph := if st.gen = t.gen ∧ st.phase = .held then Phase.replied else st.phase
         some ({ s with held := removeFirst t s.held, objs := upd s.objs t.obj { st with buf := some t, phase := ph } }, .ok)
     else none
-  | .wait o =>
+  | .wait o viaDone =>
     let st := s.objs o
-    match st.buf with
-    | some t =>
-      let ph := if st.phase = .replied then Phase.done else st.phase
-      some ({ s with objs := upd s.objs o { st with buf := none, phase := ph } }, .tag t)
-    | none => if s.topicClosed || s.clientClosed then some (s, .err "closed") else none
-  | .timeout o =>
-    -- once `done` of the topic (or of the requester's client) is closed the select in WaitTimeout returns at
-    -- once with the error: the timer can no longer win, a wait neither times out nor blocks
-    if s.topicClosed || s.clientClosed then none else
-    match (s.objs o).buf with
-    | none => some (s, .err "timeout")
-    | some _ => none
+    if viaDone then
+      -- `case <-sub.done` (ErrChannelClosed) / `case <-client.done` (ErrIsQueueClosed); a buffered reply stays
+      if s.topicClosed || s.clientDone then some (s, .err "closed") else none
+    else match st.buf with
+      | some t =>
+        let ph := if st.phase = .replied then Phase.done else st.phase
+        some ({ s with objs := upd s.objs o { st with buf := none, phase := ph } }, .tag t)
+      | none => none
+  | .timeout _ => some (s, .err "timeout")
   | .free o disciplined =>
     let st := s.objs o
     if st.phase = .pooled then none
     else if disciplined && !(st.phase = .fresh || st.phase = .done || st.phase = .failed) then none
     else some ({ s with objs := upd s.objs o { st with phase := .pooled } }, .ok)
-  | .closeTopic => some ({ s with topicClosed := true, high := [], low := [] }, .ok)
-  | .closeQueue => some ({ s with topicClosed := true, queueClosed := true, high := [], low := [] }, .ok)
+  | .closeTopic => some ({ s with topicClosed := true }, .ok)
+  | .closeQueue => some ({ s with topicClosed := true, queueClosed := true }, .ok)
+  | .subReq =>                                                  -- Sub returns at once when closing/closed
+    if s.clientDone || s.clientClosed then some (s, .ok) else some ({ s with reqSub := true }, .ok)
+  | .closeEnter =>
+    if s.clientClosed || !s.reqSub then some (s, .ok)           -- `isClosed == 1 || topic == nil`: return
+    else some ({ s with closersA := s.closersA + 1,
+                        closeOverlap := s.closeOverlap || decide (0 < s.closersA + s.closersB) }, .blocked)
+  | .closeDone =>
+    match s.closersA with
+    | 0 => none
+    | a + 1 =>
+      if s.clientDone then some ({ s with closersA := a }, .panic)          -- close of closed channel
+      else some ({ s with closersA := a, closersB := s.closersB + 1, clientDone := true }, .blocked)
+  | .closeFinish =>
+    match s.closersB with
+    | 0 => none
+    | b + 1 =>
+      if s.clientClosed then some ({ s with closersB := b }, .panic)        -- close(recv) a second time
+      else some ({ s with closersB := b, clientClosed := true }, .ok)
 
 /-- a label respects the pool discipline. -/
 def Label.disciplined : Label → Bool
